@@ -163,6 +163,18 @@ def gen(rng, tier, idx):
             o = list(range(nthreads2))
             rc.shuffle(o)
             orders.append(o)
+    if idx % 500 == 321:
+        # more streams than the usual per-process limit of open files (1024, set explicitly for every tool run):
+        # nothing may be held per stream that the system rations
+        looms = [{"name": hostnames[0] + ".big", "host": 0,
+                  "procs": [{"pid": 7 + k, "threads": [5000 * k + 100 + i for i in range(rc.randint(515, 560))]} for k in range(2)]}]
+        nthreads2 = sum(len(p["threads"]) for l in looms for p in l["procs"])
+        sched = [[a % nthreads2, d] for a, d in sched][:60]
+        orders = [list(range(nthreads2)), list(range(nthreads2 - 1, -1, -1))]
+        if table_mode == "partial":
+            table_mode = "default"
+        keep = 1
+        tablefmt = 0
     # 10%: event-less streams that belong to no thread (ovni.part != "thread"), sorting before/between/after the others
     rf = rng.derive("foreign")
     nforeign = rf.u64() if rf.chance(10) else 0
@@ -302,6 +314,8 @@ def run(case, ctx):
             "sample": {"looms": [(l["name"], [(p["pid"], p["threads"]) for p in l["procs"]]) for l in case["looms"]],
                        "skews_ns": case["skews"], "offset_table": case["table"], "mode": case["mode"],
                        "schedule_head": case["sched"][:10], "n_events": len(recs)}}
+    if nstreams > 1024:
+        info["probes"]["more streams than the soft open-file limit (1024)"] = 1
     outs = []
     for oi, order in enumerate(case["orders"]):
         order = [o for o in order if o < nstreams]
